@@ -27,7 +27,7 @@ ASSUMPTIONS = [
 REQUIRED = ['mech:analytic', 'mech:pkpd', 'pop', 'nopop', 'cov', 'doses', 'fixed', 'ids:int', 'ids:str', 'ids:npint',
             'custom_keys', 'explicit_map', 'nan_values', 'nan_times', 'unrelated', 'multi_output',
             'explicit_map:other_order', 'dose_row_with_measurement', 'pop_model_replaced',
-            'controller_reused', 'unrelated_row_first:default_map_single_output', 'unmeasured_individual:hierarchical', 'observable_named_like_covariate', 'index:not_unique', 'two_covariate_parts']
+            'controller_reused', 'unrelated_row_first:default_map_single_output', 'unmeasured_individual:hierarchical', 'observable_named_like_covariate', 'index:not_unique', 'two_covariate_parts', 'reduced_part', 'three_outputs']
 OBS_TIMES_POOL = 6
 
 
@@ -41,11 +41,11 @@ def _spec(draw):
         admin = dict(comp=ci, direct=not gen.chance(draw, 0.35))
         qn = sbmlgen.published_parameters(ms, admin)
         sq = sbmlgen.state_qnames(ms)
-        n_out = draw(st.integers(1, min(2, len(sq))))
+        n_out = draw(st.integers(1, min(3, len(sq))))
         outs = list(draw(st.permutations(sq))[:n_out])
         mech = dict(kind='pkpd', ms=ms, admin=admin, outputs=outs, n_par=len(qn))
     else:
-        n_out = draw(st.integers(1, 2))
+        n_out = draw(st.sampled_from([1, 1, 2, 2, 3]))
         mech = dict(kind='analytic', n_out=n_out, n_par=draw(st.integers(1, 3)))
     ems = [draw(st.sampled_from(llbuild.EM_KINDS)) for _ in range(n_out)]
     n_sig = sum(ref.EM_NPAR[k] for k in ems)
@@ -87,6 +87,8 @@ def _spec(draw):
         pop = popgen.draw_pop_for_dim(draw, n_ll, n_ids, max_cov_parts=2)
         cov = popgen.draw_cov_matrix(draw, n_ids, ref.pop_n_cov(pop))
         theta = popgen.draw_theta(draw, pop, n_ids, cov, positive=True)
+        # (a part may itself be a reduced model in which some or all of its parameters are fixed)
+        pop, theta, nested_red = popgen.nest_reduced(draw, pop, n_ids, theta, p=0.15)
         z = draw(gen.mat(gen.real(-2.5, 2.5), n_ids, n_ll))
         x = popgen.x_from_z(pop, n_ids, theta, z, cov)
         hd = ref.hier_layout(pop, n_ids)[2]
@@ -190,6 +192,10 @@ def classify(spec):
         labs.append('index:not_unique')
     if spec['pop'] is not None and _n_cov_parts(spec['pop']) >= 2:
         labs.append('two_covariate_parts')
+    if spec['pop'] is not None and popgen.has(spec['pop'], 'red'):
+        labs.append('reduced_part')
+    if len(spec['ems']) >= 3:
+        labs.append('three_outputs')
     if d['unrelated'] or d['extra_col'] or d['nan_rows']:
         labs.append('unrelated')
     if d['unrelated'] and d.get('unrelated_first'):
